@@ -38,7 +38,7 @@ CALLCOST == 9
 ModesOf(to) ==
   IF to \in ACCTS THEN {"ok"}
   ELSE IF to = "c" THEN {"ok", "rev", "oog"}
-  ELSE IF to = "new" THEN {"ok", "rev", "oog"}
+  ELSE IF to \in {"new", "newp"} THEN {"ok", "rev", "oog"}
   ELSE IF to = "gw" THEN {"ok", "rev"}
   ELSE IF to = "w" THEN {"ok", "irev"}
   ELSE {"ok"}
@@ -84,7 +84,7 @@ Init ==
   /\ st = [nonce |-> [a \in ACCTS |-> 0], bal |-> [p \in Parties |-> IF p \in ACCTS THEN GENBAL ELSE 0],
            fc |-> 0, sink |-> 0, bg |-> 0, bf |-> CHOOSE b \in BFS : \A c \in BFS : b <= c,
            stor |-> [c \in {"c", "w", "w1"} |-> 0], dep |-> 0,
-           wd |-> [a \in ACCTS |-> 0], dl |-> [a \in ACCTS |-> 0]]
+           wd |-> [a \in ACCTS |-> 0], dl |-> [a \in ACCTS |-> 0], avs |-> 0]
   /\ hist = <<>>
   /\ ntx = 0
   /\ nblk = 0
